@@ -27,7 +27,8 @@ inductive Ty where
   | bareFn (args : List Ty) (ret : Option Ty)
   | paren (t : Ty)
   | never
-  | dynT (global : Bool) (segs : List Seg)
+  /-- `dyn Path + more…`: further bounds are opaque and mention no generic parameter (`Send`, `'static`) -/
+  | dynT (global : Bool) (segs : List Seg) (more : List Toks := [])
   | macro (toks : List String)
 inductive Seg where
   | mk (ident : String) (args : List GArg)
@@ -64,7 +65,7 @@ def Ty.toks : Ty → Toks
       "fn" :: "(" :: Ty.toksComma args ++ ")" :: Ty.toksRet ret
   | .paren t => "(" :: t.toks ++ [")"]
   | .never => ["!"]
-  | .dynT g segs => "dyn" :: (if g then ["::"] else []) ++ Seg.toksL segs
+  | .dynT g segs more => "dyn" :: (if g then ["::"] else []) ++ Seg.toksL segs ++ more.flatMap (fun b => "+" :: b)
   | .macro toks => toks
 def Ty.toksRet : Option Ty → Toks
   | none => []
@@ -97,6 +98,12 @@ def GArg.toksComma : List GArg → Toks
   | a :: b :: rest => a.toks ++ "," :: GArg.toksComma (b :: rest)
 end
 
+/-- `A + B: Trait`, `&'a A + B` are not well-formed: a trait object with several bounds is parenthesized
+where it is placed behind `&`, in front of `:` or in place of `Self` -/
+def Ty.parenIfPlus : Ty → Ty
+  | .dynT g segs (b :: bs) => .paren (.dynT g segs (b :: bs))
+  | t => t
+
 /-! `expand_self`: replace every type node that *is* `Self` -/
 
 def Ty.isSelf : Ty → Bool
@@ -105,7 +112,7 @@ def Ty.isSelf : Ty → Bool
 
 mutual
 def Ty.expandSelf (to : Ty) : Ty → Ty
-  | .path g segs => if (Ty.path g segs).isSelf then to else .path g (Seg.expandSelfL to segs)
+  | .path g segs => if (Ty.path g segs).isSelf then to.parenIfPlus else .path g (Seg.expandSelfL to segs)
   | .qpath s tg tsegs rest =>
       .qpath (Ty.expandSelf to s) tg (Seg.expandSelfL to tsegs) (Seg.expandSelfL to rest)
   | .ref lt m t => .ref lt m (Ty.expandSelf to t)
@@ -117,7 +124,7 @@ def Ty.expandSelf (to : Ty) : Ty → Ty
       .bareFn (Ty.expandSelfL to args) (Ty.expandSelfO to ret)
   | .paren t => .paren (Ty.expandSelf to t)
   | .never => .never
-  | .dynT g segs => .dynT g (Seg.expandSelfL to segs)
+  | .dynT g segs more => .dynT g (Seg.expandSelfL to segs) more
   | .macro toks => .macro toks
 
 def Ty.expandSelfO (to : Ty) : Option Ty → Option Ty
@@ -165,7 +172,7 @@ def Ty.mentions (ps : List String) : Ty → Bool
   | .bareFn args ret => Ty.mentionsL ps args || Ty.mentionsO ps ret
   | .paren t => t.mentions ps
   | .never => false
-  | .dynT g segs => headIn ps g segs || Seg.mentionsL ps segs
+  | .dynT g segs _ => headIn ps g segs || Seg.mentionsL ps segs
   | .macro _ => false
 def Ty.mentionsO (ps : List String) : Option Ty → Bool
   | none => false
